@@ -267,7 +267,7 @@ def run(ctx):
             flags["(none: outside every excluded class)"] += 1
 
     # ---------------- model vs implementation, inside Coq
-    per = 150
+    per = 100 if ctx.tier == "quick" else 150
     model_hs = [h for h in hs if h.get("model")]
     shards = [model_hs[i:i + per] for i in range(0, len(model_hs), per)]
     try:
@@ -318,7 +318,7 @@ def run(ctx):
     from checks import storelib
     sbin = vlib.go_build("store")
     sout = os.path.join(ctx.workdir, "store.jsonl")
-    sn = 150 if ctx.tier == "quick" else 1500
+    sn = 120 if ctx.tier == "quick" else 1500
     rc, o = vlib.sh([sbin, "-seed", str(ctx.seed + 7), "-tier", ctx.tier, "-n", str(sn), "-out", sout], timeout=3000)
     if rc != 0:
         raise vlib.BuildError("store harness run failed: " + o[-2000:])
